@@ -236,6 +236,10 @@ class Harness:
             info = StreamInformation(MersenneTwister(specs[0].get("seed", 10))) if prog["experiment"].get("default_first") else StreamInformation()
             for sp in specs:
                 info.add_stream(sp["name"], MersenneTwister(sp.get("seed", 10)))
+            if prog["experiment"].get("alias") and specs:
+                # one stream object registered under a second id as well (e.g. a shared 'default' stream): the updater then
+                # serves it twice, in registration order
+                info.add_stream("zz_alias_of_" + specs[0]["name"], info.get_stream(specs[0]["name"]))
             if prog["experiment"]["updater"] == "table":
                 upd = StreamSeedUpdater({specs[0]["name"]: prog["experiment"]["table"]})    # the other streams use the fallback updater
             else:
